@@ -706,6 +706,25 @@ class Executor:
     def _store(self, st, base, sl, v, node, ev):
         if hasattr(base, "sym_setitem"):
             return base.sym_setitem(sl, v, ev, node)
+        if isinstance(base, list):
+            # lists are immutable values: an item assignment with a literal index rebinds every local / attribute that holds the list
+            i = simp(ev.eval(sl)) if not isinstance(sl, ast.Slice) else None
+            if not isinstance(i, int) or not (-len(base) <= i < len(base)):
+                raise Outside("list item assignment with a non-literal or out-of-range index")
+            new = list(base)
+            new[i] = v
+            hit = False
+            for k2, v2 in list(st.env.items()):
+                if v2 is base:
+                    st.env[k2] = new
+                    hit = True
+            for k2, v2 in list(st.fields.items()):
+                if v2 is base:
+                    st.fields[k2] = new
+                    hit = True
+            if not hit:
+                raise Outside("item assignment to a list that is neither a local variable nor an attribute")
+            return
         if isinstance(base, Row):
             raise Outside("store into matrix row outside a contract")
         if isinstance(base, Mat):
@@ -749,6 +768,17 @@ class Executor:
     def _loop(self, n, st, k, start_override=None):
         ordinal = self.loop_ordinals[id(n)]
         spec = self.contract.loops.get(ordinal)
+        if spec is None and isinstance(n, ast.For) and not n.orelse:
+            # a loop whose iteration space is known now (tuple / list value, literal range, zip of those) and has no sidecar
+            # invariant is executed as straight-line code, item by item (exact semantics; `break` leaves the loop)
+            items = Evaluator(self, st)._concrete_items(n.iter)
+            if items is not None and len(items) <= 64:
+                def run_from(i, s1):
+                    if i == len(items):
+                        return k(s1)
+                    self._assign(s1, n.target, items[i], n)
+                    return self._loop_body(n.body, s1, lambda s2: run_from(i + 1, s2), break_k=k)
+                return run_from(0, st)
         if spec is None:
             raise Outside(f"loop {ordinal} (line {n.lineno}) has no invariant in the sidecar")
         kind = "for" if isinstance(n, ast.For) else "while"
@@ -846,6 +876,12 @@ class Executor:
         assigned = _assigned_names(n.body)
         if it:
             assigned.add(it[0])
+        for sub in ast.walk(ast.Module(body=n.body, type_ignores=[])):
+            # `name[i] = v` on a Python list rebinds the name (lists are values): treated as an assignment of the name
+            if isinstance(sub, ast.Subscript) and isinstance(sub.ctx, ast.Store) and isinstance(sub.value, ast.Name) and isinstance(st.env.get(sub.value.id), list):
+                if sub.value.id not in spec.types:
+                    raise Outside(f"list {sub.value.id} is mutated inside loop {ordinal}: the sidecar must say what it holds at the loop head")
+                assigned.add(sub.value.id)
         hst = st.copy()
         for name in assigned:
             if name in hst.env:
@@ -1271,6 +1307,13 @@ class Evaluator:
         return self.binop(n.op, self.eval(n.left), self.eval(n.right), n)
 
     def binop(self, op, a, b, n):
+        # Python sequences: repetition by a literal count, concatenation
+        if isinstance(op, ast.Mult) and isinstance(a, (list, tuple)) and isinstance(simp(b) if is_z3(b) else b, int) and not isinstance(b, bool):
+            return type(a)(list(a) * int(simp(b) if is_z3(b) else b))
+        if isinstance(op, ast.Add) and isinstance(a, list) and isinstance(b, list):
+            return a + b
+        if isinstance(op, ast.Add) and isinstance(a, tuple) and isinstance(b, tuple):
+            return a + b
         # array algebra first
         if isinstance(a, (Arr, Prod)) or isinstance(b, (Arr, Prod)):
             return self.arr_binop(op, a, b, n)
@@ -1480,7 +1523,16 @@ class Evaluator:
     def e_Call(self, n):
         f = self.eval(n.func)
         args = [self.eval(a) for a in n.args]
-        kwargs = {k.arg: self.eval(k.value) for k in n.keywords}
+        kwargs = {}
+        for kw in n.keywords:
+            v = self.eval(kw.value)
+            if kw.arg is None:  # **mapping
+                if isinstance(v, dict):
+                    kwargs.update(v)
+                else:
+                    kwargs[None] = v  # a symbolic mapping, passed on as a whole (contracts that accept it look under the key None)
+            else:
+                kwargs[kw.arg] = v
         if isinstance(f, Builtin):
             return self.ex.call_builtin(f.name, self.st, args, kwargs, n, self)
         if isinstance(f, Method):
@@ -1494,12 +1546,65 @@ class Evaluator:
     def e_Lambda(self, n):
         raise Outside("lambda")
 
+    def _concrete_items(self, it):
+        """the items of an iterable expression when their NUMBER is known now (literal range bounds, tuple / list values, zip of
+        those), else None"""
+        if isinstance(it, ast.Call) and isinstance(it.func, ast.Name) and it.func.id == "range" and "range" not in self.st.env:
+            args = [simp(self.eval(a)) for a in it.args]
+            if all(isinstance(a, int) for a in args):
+                return list(range(*args))
+            return None
+        if isinstance(it, ast.Call) and isinstance(it.func, ast.Name) and it.func.id == "zip" and "zip" not in self.st.env:
+            cols = [self._concrete_items(a) for a in it.args]
+            if all(c is not None for c in cols):
+                return [tuple(x) for x in zip(*cols)]
+            return None
+        if isinstance(it, (ast.Name, ast.Attribute, ast.Subscript, ast.Tuple, ast.List)):
+            try:
+                v = self.eval(it)
+            except Outside:
+                return None
+            if isinstance(v, (tuple, list)):
+                return list(v)
+        return None
+
+    def e_ListComp(self, n):
+        v = self.e_GeneratorExp(n)
+        if isinstance(v, tuple):
+            return list(v)
+        raise Outside("list comprehension over a symbolic range")
+
     def e_GeneratorExp(self, n):
         """(elt for v in range(a, b)) -> symbolic sequence; the element expression is evaluated once on a generic index for
         its well-definedness obligations, and lazily (as a spec expression) for each access"""
-        if len(n.generators) != 1 or n.generators[0].ifs or n.generators[0].is_async:
+        if len(n.generators) != 1 or n.generators[0].is_async:
             raise Outside("generator expression form")
         g = n.generators[0]
+        # concrete iteration space (a literal range, a tuple / list value, zip of such): evaluated element by element, here
+        items = self._concrete_items(g.iter)
+        if items is not None:
+            out = []
+            for it in items:
+                saved = dict(self.st.env)
+                try:
+                    self.ex._assign(self.st, g.target, it, n)
+                    keep = True
+                    for cond in g.ifs:
+                        c = simp(Zb(self.eval(cond))) if not isinstance(self.eval(cond), bool) else self.eval(cond)
+                        if c is True or (is_z3(c) and z3.is_true(c)):
+                            continue
+                        if c is False or (is_z3(c) and z3.is_false(c)):
+                            keep = False
+                            break
+                        raise Outside("generator filter that is not decided syntactically")
+                    if keep:
+                        out.append(self.eval(n.elt))
+                finally:
+                    self.st.env.clear()
+                    self.st.env.update(saved)
+            return tuple(out)
+        if g.ifs:
+            raise Outside("generator expression form")
         if not (isinstance(g.iter, ast.Call) and isinstance(g.iter.func, ast.Name) and g.iter.func.id == "range" and isinstance(g.target, ast.Name)):
             raise Outside("generator over a non-range")
         args = [self.eval(a) for a in g.iter.args]
@@ -1556,7 +1661,7 @@ def _dotted(n):
 
 MODULE_ALIASES = {"np", "config", "math", "torch", "struct", "warnings", "os", "sys", "fftpack", "io", "re"}
 BUILTIN_NAMES = {"len", "min", "max", "int", "float", "bool", "abs", "range", "isinstance", "tuple", "list", "sum",
-                 "forall", "exists", "implies", "old", "ite", "count", "enumerate"}
+                 "forall", "exists", "implies", "old", "ite", "count", "enumerate", "slice"}
 
 
 class Builtin:
@@ -1579,6 +1684,16 @@ class PyCallable:
 
     def __init__(self, fn):
         self.fn = fn
+
+
+class PySlice:
+    """a slice object built with slice(...) (None = omitted)"""
+
+    def __init__(self, lo, hi, step):
+        self.lo, self.hi, self.step = lo, hi, step
+
+    def is_full(self):
+        return self.lo is None and self.hi is None and self.step is None
 
 
 class SeqVal:
@@ -1662,6 +1777,9 @@ def Executor_call_builtin(self, name, st, args, kwargs, node, ev):
         ev.wd(zst > 0, "range_step_positive", node)
         n = simp(z3.If(zhi > zlo, (zhi - zlo + zst - 1) / zst, 0))
         return SeqVal(n, lambda i: simp(zlo + Z(i) * zst))
+    if name == "slice" and 1 <= len(args) <= 3:
+        lo, hi, stp = (None, args[0], None) if len(args) == 1 else ((args[0], args[1], None) if len(args) == 2 else args)
+        return PySlice(lo, hi, stp)
     if name == "count" and len(args) <= 1:
         k0 = Z(args[0]) if args else z3.IntVal(0)
         return SeqVal(None, lambda i: simp(k0 + Z(i)))  # itertools.count: unbounded
@@ -1669,6 +1787,8 @@ def Executor_call_builtin(self, name, st, args, kwargs, node, ev):
         return args[0]
     if name == "tuple" and len(args) == 1 and isinstance(args[0], (tuple, list)):
         return tuple(args[0])
+    if name == "list" and len(args) == 1 and isinstance(args[0], (tuple, list)):
+        return list(args[0])
     if name == "bool":
         return simp(Zb(args[0]))
     if name in ("np.ceil", "math.ceil"):
